@@ -586,6 +586,7 @@ func panicKey() string {
 	return "unknown"
 }
 
+//go:norace
 func containsStr(s, sub string) bool {
 	for i := 0; i+len(sub) <= len(s); i++ {
 		if s[i:i+len(sub)] == sub {
@@ -1008,6 +1009,19 @@ func LiveSUTTasks() []*Task {
 		}
 	}
 	return out
+}
+
+// CountLiveSUT counts SUT tasks that have not exited and whose creation site contains sub.
+//
+//go:norace
+func CountLiveSUT(sub string) int {
+	n := 0
+	for t := W.tasks; t != nil; t = t.next {
+		if t.SUT && t.state != stDone && containsStr(t.Site, sub) {
+			n++
+		}
+	}
+	return n
 }
 
 //go:norace
